@@ -11,7 +11,8 @@ Executable model of package fai (fai/fai.go, fai/file.go) — core Lean only.
 
 The model describes the code as it is now on /repo main, i.e. WITH the repairs fixes/C19-1 (blank lines are counted into the offset),
 fixes/C19-2 (Read at the end of the segment returns io.EOF before any position arithmetic) and
-fixes/C19-3 (no 64 KiB limit on the length of a line), and with C11's repairs d9ad7e9 (`position` returns Start
+fixes/C19-3 (no 64 KiB limit on the length of a line), fixes/C19-4 (a sequence line after a blank line is
+rejected), and with C11's repairs d9ad7e9 (`position` returns Start
 when BasesPerLine is 0) and 38c3f30 (`ReadFrom` validates every record: `RawRecord.isValid`).
 
 Conventions: bytes are `UInt8`, Go `int`/`int64` values are `Nat` (the code never produces negative ones;
@@ -109,8 +110,8 @@ def flush (st : ScanState) : Index × Record :=
 def step (st : ScanState) (line : Bytes) : Except IdxErr ScanState :=
   let b := trimSpace line
   if b = [] then
-    -- blank line: counted into the offset (fixes/C19-1), nothing else
-    .ok { st with offset := st.offset + line.length }
+    -- blank line: counted into the offset (fixes/C19-1); only a description line may follow (fixes/C19-4)
+    .ok { st with offset := st.offset + line.length, wantDescLine := true }
   else if b = [GT] then .error .missingName
   else if b.head? = some GT then
     let (idx, pend) := flush st
@@ -222,19 +223,21 @@ structure RdRes where
 /-- `bytes.Reader.ReadAt(b[:want], pos)`: the bytes and whether fewer than `want` were available (io.EOF). -/
 def readAt (file : Bytes) (pos want : Nat) : Bytes := (file.drop pos).take want
 
-/-- The `for s.cur < s.end` loop of `Seq.Read`; `k` = remaining `len(b)` (positive), `acc` = bytes copied so far. -/
-def readLoop (file : Bytes) (r : Record) (endPos stop : Nat) (cur k : Nat) (acc : Bytes) : RdRes :=
+/-- The `for s.cur < s.end` loop of `Seq.Read`, with the two record functions it calls as parameters
+(`pos` = `Record.position`, `eol` = `Record.endOfLineOffset`); `k` = remaining `len(b)` (positive),
+`acc` = bytes copied so far.  The loop evaluates `pos` and `eol` only at cursors `cur < stop`
+(`readLoopG_congr`). -/
+def readLoopG (file : Bytes) (pos eol : Nat → Nat) (endPos stop : Nat) (cur k : Nat) (acc : Bytes) : RdRes :=
   if h : cur < stop then
-    let pos := r.position cur
-    if endPos ≤ pos then ⟨acc, .badLayout, cur⟩
+    if endPos ≤ pos cur then ⟨acc, .badLayout, cur⟩
     else
-      let want := min (min (r.endOfLineOffset cur) (endPos - pos)) k
+      let want := min (min (eol cur) (endPos - pos cur)) k
       if h0 : want = 0 then ⟨acc, .badLayout, cur⟩
       else
-        let got := readAt file pos want
+        let got := readAt file (pos cur) want
         if hg : got.length < want then ⟨acc ++ got, .eof, cur + got.length⟩   -- ReadAt returned io.EOF
         else if k - got.length = 0 then ⟨acc ++ got, .nil, cur + got.length⟩
-        else readLoop file r endPos stop (cur + got.length) (k - got.length) (acc ++ got)
+        else readLoopG file pos eol endPos stop (cur + got.length) (k - got.length) (acc ++ got)
   else ⟨acc, .eof, cur⟩
 termination_by stop - cur
 decreasing_by
@@ -242,6 +245,10 @@ decreasing_by
   have h2 : 0 < want := Nat.pos_of_ne_zero h0
   have h3 : 0 < got.length := Nat.lt_of_lt_of_le h2 h1
   exact Nat.sub_lt_sub_left h (Nat.lt_add_of_pos_right h3)
+
+/-- the loop of `Seq.Read` for record `r` -/
+def readLoop (file : Bytes) (r : Record) (endPos stop : Nat) (cur k : Nat) (acc : Bytes) : RdRes :=
+  readLoopG file r.position r.endOfLineOffset endPos stop cur k acc
 
 /-- One call `s.Read(b)` with `len(b) = k`: the bytes stored in `b`, the error, the new cursor. -/
 def Seq.read (file : Bytes) (s : Seq) (k : Nat) : RdRes :=
